@@ -298,8 +298,11 @@ OnAcc(m, e) ==
 OnFin(m, e) ==
   LET t  == e.t
       cu == m.cur[t]
-      m1 == IF e.keyback /\ HeldBy(m, t) # {} /\ m.dead = {}
-            THEN Flag(m, IF cu.panicked THEN "C11" ELSE "C03", CallSig(m, t, "key-back-while-holding")) ELSE m
+      \* C03 covers "scoped call returned or unwound"; after a user panic the same fact also breaks C11
+      m0 == IF e.keyback /\ HeldBy(m, t) # {} /\ m.dead = {}
+            THEN Flag(m, "C03", CallSig(m, t, "key-back-while-holding")) ELSE m
+      m1 == IF e.keyback /\ HeldBy(m, t) # {} /\ m.dead = {} /\ cu.panicked
+            THEN Flag(m0, "C11", CallSig(m, t, "key-back-while-holding")) ELSE m0
       m2 == IF cu.rel = "forget" /\ cu.succ /\ ~cu.panicked THEN [m1 EXCEPT !.leaked = @ \cup HeldBy(m1, t)] ELSE m1
       m3 == IF cu.panicked /\ (HeldBy(m2, t) \ (m2.leaked \cup cu.h0)) # {} /\ ~cu.faulted /\ m2.dead = {}
             THEN Flag(m2, "C11", CallSig(m2, t, "locks-held-after-panic")) ELSE m2
